@@ -821,7 +821,10 @@ class COOSubjac(SparseSubjac):
         self._out_view = None
         self._res_view = None
 
-        if dtype.kind == 'f':
+        if issparse(self.info['val']):
+            # a scipy COO matrix: convert its data array (OMCOOSubjac holds a plain ndarray)
+            super().set_dtype(dtype)
+        elif dtype.kind == 'f':
             self.info['val'] = np.ascontiguousarray(self.info['val'].real, dtype=dtype)
         elif dtype.kind == 'c':
             self.info['val'] = np.asarray(self.info['val'], dtype=dtype)
